@@ -267,6 +267,10 @@ func genDaemonScenario(r *vlib.Rng, nsess int, bigEvents bool, uncorrelated bool
 	for k := 0; k < nsess; k++ {
 		s := &dSession{K: k, Pid: 100000 + k, Sid: strconv.Itoa(10000 + k), User: fmt.Sprintf("user%d", k), KeyID: fmt.Sprintf("key%d@example.com", k),
 			Addr: fmt.Sprintf("10.%d.%d.%d", k/60000, (k/250)%250, k%250), Port: strconv.Itoa(1024 + k%60000), HasLogin: true, HasRec: true}
+		if k%3 == 2 {
+			// the same person, key and address as session 0: only the sshd pid differs
+			s.User, s.KeyID, s.Addr, s.Port = "user0", "key0@example.com", "10.0.0.0", "1024"
+		}
 		if uncorrelated && r.Chance(12) {
 			s.HasLogin = false
 		} else if uncorrelated && r.Chance(8) {
